@@ -35,6 +35,7 @@ def headStr : Head → String
   | .mac n => s!"macro {nameOf n}"
   | .method n => s!"method {nameOf n}"
   | .methodVar => "method #interpolated"
+  | .assoc y n => s!"associated function {nameOf y}::{nameOf n}"
   | .binder n => s!"binder {nameOf n}"
 
 mutual
